@@ -34,3 +34,11 @@ mod c40_revgroup;
 mod c31_sft;
 #[cfg(kani)]
 mod c27_rawfreelist;
+#[cfg(kani)]
+mod c26_freelist;
+#[cfg(kani)]
+mod c28_pageresource;
+#[cfg(kani)]
+mod obj;
+#[cfg(kani)]
+mod c18_transitions;
